@@ -586,7 +586,7 @@ def run(tier, seed):
                        "instants from 1972 on; six historic zones with second-valued offsets are judged on the rfc3339 field alone; "
                        "ISO-week and year-less patterns are not generated (they can never produce a date: DESIGN section 9)",
                        "durations are whole nanoseconds and results stay within years 0001-9999"]
-    n = 12000 if tier == "quick" else 400000
+    n = 12000 if tier == "quick" else 2000000
     per = nproc()
     for res in shard_map(work, [None] * per, (seed, n // per + 1)):
         run.merge(res)
